@@ -13,7 +13,13 @@ git apply $SRC/patch.diff || { echo "patch does not apply"; RCA=1; }
 PYTHONPATH=$WT timeout 300 /venv/bin/python _demo.py >/tmp/cw-$P-$X.changed.log 2>&1; RC1=$?
 PYTHONPATH=$WT timeout 1500 /venv/bin/python -m pytest -q -p no:cacheprovider psutil/tests/test_process.py psutil/tests/test_system.py psutil/tests/test_misc.py psutil/tests/test_linux.py psutil/tests/test_posix.py psutil/tests/test_testutils.py psutil/tests/test_contracts.py psutil/tests/test_unicode.py psutil/tests/test_memleaks.py -q --timeout=600 2>&1 | tail -5 > /tmp/cw-$P-$X.tests.log
 FAILED=$(grep -c "^FAILED" /tmp/cw-$P-$X.tests.log)
-ONLYUSERS=$(grep "^FAILED" /tmp/cw-$P-$X.tests.log | grep -v "test_users" | wc -l)
+# tests that fail under machine load are re-run alone (twice) before they count
+ONLYUSERS=0
+for T in $(grep "^FAILED" /tmp/cw-$P-$X.tests.log | grep -v "test_users" | awk '{print $2}'); do
+  OK=0
+  for i in 1 2; do PYTHONPATH=$WT timeout 600 /venv/bin/python -m pytest -q -p no:cacheprovider "$T" -q --timeout=300 >/dev/null 2>&1 && OK=1 && break; done
+  [ $OK = 1 ] || ONLYUSERS=$((ONLYUSERS+1))
+done
 cd /; git -C /repo worktree remove --force $WT
 echo "$P-$X demo_unchanged=$RC0 demo_changed=$RC1 other_failed_tests=$ONLYUSERS tests: $(tail -1 /tmp/cw-$P-$X.tests.log)"
 if [ "$RC0" = 0 ] && [ "$RC1" != 0 ] && [ "$ONLYUSERS" = 0 ]; then
